@@ -4,6 +4,7 @@ import DivanModel.Driver.C10
 import DivanModel.Driver.C18
 import DivanModel.Driver.C16
 import DivanModel.Driver.Reg
+import DivanModel.Driver.Bench
 /-! Line-protocol driver. One request per line: `verb args…<TAB>implementation observation`.
     One answer per line: `model observation<TAB>spec verdict on the implementation's observation<TAB>branch tag`. -/
 open Driver
@@ -14,6 +15,7 @@ def dispatch (verb : String) (args : List String) (obs : String) : Option Reply 
   | "tally" | "tallymt" | "prof" => C10.handle verb args obs
   | "fd" | "f64" | "bytes" | "thr" => C18.handle verb args obs
   | "natcmp" | "natcmp3" | "argcmp" | "argsort" => C16.handle verb args obs
+  | "bench" => Bench.handle args obs
   | "reg" => Reg.handle args obs
   | "ovw" => Reg.handleOvw args obs
   | _ => none
